@@ -153,9 +153,6 @@ class C06Models:
                 return SV(c06_array1(z3.simplify(o.elems[0])), TNd)
         return NotImplemented
 
-    def list_display(self, ex, elts, node):
-        return NotImplemented
-
     def binop(self, ex, op, a, b, lineno, inplace=False):
         if not _on(ex):
             return NotImplemented
@@ -233,7 +230,7 @@ class C06Models:
         if name == "c06disc.get_output_data" and not args and not kwargs:
             d = recv.term
             em, ev = st.ghost_get("c06_exec_m", EXM_S), st.ghost_get("c06_exec_v", EXV_S)
-            o = DictObj(TStr, TNd if False else _data_v(), c06_out_m(d, em[d], ev[d]), c06_out_v(d, em[d], ev[d]), st.fresh_int("outn"))
+            o = DictObj(TStr, _data_v(), c06_out_m(d, em[d], ev[d]), c06_out_v(d, em[d], ev[d]), st.fresh_int("outn"))
             for f in o.wf_facts(st):
                 st.assume(f)
             ex.assumed.add("opaque disciplines: io.get_output_data() is a new mapping, a deterministic function of (discipline, content of the data it was last executed on)")
